@@ -445,6 +445,13 @@ func obfs4Mutation(rs *o4h.RefSession, name string, seed []byte) []byte {
 			g[i] = byte(i*7 + 3)
 		}
 		return append(fr, g...)
+	case "sealed-frame/1430", "sealed-frame/1431", "sealed-frame/1432", "sealed-frame/1433", "sealed-frame/1434", "sealed-frame/1445", "sealed-frame/1446", "sealed-frame/1447", "sealed-frame/1448", "sealed-frame/1449", "sealed-frame/2048", "sealed-frame/8192", "sealed-frame/65519":
+		// a correctly sealed frame whose payload is at (1430: legal, a
+		// packet that is all padding) or beyond the format's maximum, from a peer that holds the
+		// session keys; followed by more bytes so that the frame is complete
+		n, _ := strconv.Atoi(strings.TrimPrefix(name, "sealed-frame/"))
+		p := make([]byte, n) // a payload packet of length 0, the rest is padding
+		return append(rs.Tx.SealAny(p), make([]byte, 3000)...)
 	case "many-empty-frames":
 		var out []byte
 		for i := 0; i < 3000; i++ {
@@ -459,7 +466,8 @@ func obfs4Mutation(rs *o4h.RefSession, name string, seed []byte) []byte {
 // current exchange.
 var realStream *rnd.Stream
 
-var obfs4Mutations = []string{"bad-length/0", "bad-length/1429", "bad-length/1430", "bad-length/1431", "bad-length/1432", "bad-length/1446", "bad-length/1447", "bad-length/1448", "short-frame-0", "short-frame-2", "len-exceeds", "len-ffff", "len-max+1", "type-2", "type-ff", "seed-short", "seed-long", "seed-empty", "many-empty-frames"}
+var obfs4Mutations = []string{"bad-length/0", "bad-length/1429", "bad-length/1430", "bad-length/1431", "bad-length/1432", "bad-length/1446", "bad-length/1447", "bad-length/1448", "short-frame-0", "short-frame-2", "len-exceeds", "len-ffff", "len-max+1", "type-2", "type-ff", "seed-short", "seed-long", "seed-empty", "many-empty-frames",
+	"sealed-frame/1430", "sealed-frame/1431", "sealed-frame/1432", "sealed-frame/1433", "sealed-frame/1434", "sealed-frame/1445", "sealed-frame/1446", "sealed-frame/1447", "sealed-frame/1448", "sealed-frame/1449", "sealed-frame/2048", "sealed-frame/8192", "sealed-frame/65519"}
 
 // ssMutation builds MACed packets with malformed headers.
 func ssMutation(rs *ref.SSSession, name string) []byte {
